@@ -82,6 +82,7 @@ var (
 	statsMuSelf    sync.Mutex
 	selfBad        []string
 	modelValidated int
+	hazardsBenign  int
 )
 
 func Register(c *Check) { Registry[c.ID] = c }
@@ -582,6 +583,9 @@ func Run(id, tier string, seed int, workers int) int {
 			if f.Kind == "panic" {
 				expect = "panic"
 			}
+			if f.Kind == "hazard" {
+				expect = "any-native-failure"
+			}
 			rf := replayFile{Property: id, Harness: co.c.Fn, Package: co.c.Pkg, Args: co.c.Args, Values: f.Model, Expect: expect, Msg: f.Msg, Case: co.c.ID}
 			b, _ := json.MarshalIndent(rf, "", " ")
 			name := fmt.Sprintf("%s-%s-%s.json", co.c.Fn, hashStr(co.c.ID), hashStr(f.Kind+f.ID+fmt.Sprint(f.Model)))
@@ -666,13 +670,20 @@ func Run(id, tier string, seed int, workers int) int {
 
 	// ---- classify findings
 	violations := 0
+	hazardsBenign = 0
 	knownHit := map[string]bool{}
 	var samplesViol []interface{}
 	for _, p := range pend {
 		no, ok := native[p.path]
 		reproduced := false
 		if ok {
-			if p.expect == "panic" {
+			if p.expect == "any-native-failure" {
+				// aliasing hazard: the VM keeps value semantics, the native run decides
+				reproduced = no.Invalid == "" && (no.Panic != "" || len(no.Failed) > 0)
+				if reproduced {
+					p.f.ID = p.f.ID + " -> native run fails " + strings.Join(no.Failed, ",") + firstLineOf(no.Panic)
+				}
+			} else if p.expect == "panic" {
 				reproduced = no.Panic != ""
 			} else {
 				for _, fid := range no.Failed {
@@ -686,6 +697,11 @@ func Run(id, tier string, seed int, workers int) int {
 			why := "no native outcome"
 			if ok {
 				why = fmt.Sprintf("native run: failed=%v panic=%q invalid=%q", no.Failed, firstLineOf(no.Panic), no.Invalid)
+			}
+			if p.f.Kind == "hazard" {
+				hazardsBenign++
+				os.Remove(p.path)
+				continue
 			}
 			toolErrors = append(toolErrors, fmt.Sprintf("model did not reproduce natively (encoding or stub defect, not reported as violation): case=%q %s %s: %s replay=%s", p.c.ID, p.f.Kind, p.f.ID, why, p.path))
 			continue
@@ -927,6 +943,7 @@ func writeEvidence(chk *Check, tier string, seed int, t0 time.Time, results []ca
 	cov["tool_errors"] = toolErrors
 	cov["known_findings_hit"] = knownHit
 	cov["model_validation_comparisons"] = modelValidated
+	cov["alias_hazards_replayed_without_native_failure"] = hazardsBenign
 	cov["exhaustive"] = false
 	cov["explanation"] = "Bounded symbolic execution of the real code (go/ssa of /repo's working tree) with an SMT solver deciding every branch and assertion; 'states' = symbolic paths completed, 'transitions' = branch decisions resolved by the solver."
 	if st != nil {
@@ -990,7 +1007,9 @@ func Replay(path string) int {
 	ob, _ := json.MarshalIndent(o, "", " ")
 	fmt.Printf("harness=%s args=%q values=%v\nnative outcome: %s\n", rf.Harness, rf.Args, rf.Values, ob)
 	rep := false
-	if rf.Expect == "panic" {
+	if rf.Expect == "any-native-failure" {
+		rep = o.Invalid == "" && (o.Panic != "" || len(o.Failed) > 0)
+	} else if rf.Expect == "panic" {
 		rep = o.Panic != ""
 	} else {
 		for _, f := range o.Failed {
